@@ -268,6 +268,8 @@ PROPS = {
         'assumptions': ['partial: real serial timing; a read takes 1..T ticks'],
     },
     'C19': {
+        'source_transfer': ['TransferRender'],
+        'source_tie': ['Render'],
         'jobs': [{'component': 'render', 'profile': 'render', 'quick': 90, 'thorough': 300},
                  {'component': 'level', 'profile': 'level', 'quick': 1200, 'thorough': 3000, 'project': 'result+sent'},
                  {'component': 'valset', 'profile': 'valget', 'quick': 120, 'thorough': 600},
